@@ -203,8 +203,7 @@ def check_simple(c, out):
     M, N = c['M'], c['N']
     A = mat(c['mat'], M, N)
     if fam == 'diag':
-        check_applications(out, 'DiagonalOperator', lambda: operators.DiagonalOperator(np.diag(A).copy()), c, M, N,
-                           cls='n=1' if N == 1 else '')
+        check_applications(out, 'DiagonalOperator', lambda: operators.DiagonalOperator(np.diag(A).copy()), c, M, N)
     elif fam == 'ident':
         check_applications(out, 'IdentityOperator', lambda: operators.IdentityOperator(N), c, M, N)
     else:
